@@ -727,6 +727,9 @@ func c06RandomScenario(r interface{ Intn(int) int }, idx int) c06Scenario {
 			if op.Kind == "clustertype" && ff && failing >= 2 {
 				ff = false
 			}
+			if op.Kind == "direct" {
+				ff = true // a direct task IS the retry of a failed delete
+			}
 			if ff {
 				failing++
 			}
